@@ -18,7 +18,7 @@ TITLE = "Split.run follows its documented block/branch schedule for every branch
 LEAN_MODULES = ["LenaModel.Props.C03", "LenaModel.Props.C03X", "LenaModel.Props.C03Zip"]
 LEAN_SOURCES = ["LenaModel/Model/C03.lean", "LenaModel/Lemmas/C03.lean", "LenaModel/Props/C03.lean",
                 "LenaModel/Model/C03X.lean", "LenaModel/Lemmas/C03X.lean", "LenaModel/Props/C03X.lean",
-                "LenaModel/Model/C03Zip.lean", "LenaModel/Props/C03Zip.lean"]
+                "LenaModel/Model/C03Zip.lean", "LenaModel/Props/C03Zip.lean", "LenaModel/Model/C03Spec.lean"]
 DRIVER = "drivers/C03.lean"
 THEOREMS = [
     "Lena.C03.loop_refines_spec",
